@@ -8,6 +8,7 @@ import DD.Dump
 import DDProofs.Ite
 import DDProofs.VarsProofs
 import DDProofs.DynRef
+import DDProofs.SatList
 open Std
 namespace DD
 
@@ -431,17 +432,50 @@ theorem mapRoots_spec {umap : TreeMap Int Int} {P : Int → Int → Prop} (r : R
   | list l => exact Roots.mapE_spec (.list l) (by simp) h
   | dict d => exact Roots.mapE_spec (.dict d) (by simp) h
 
+/-- `load` after the `levels=True` pre-check -/
+def loadPickleBody (f : PickleFile) (levels : Bool) : M Roots := fun m =>
+  match loadVars levels f.vars.length f.vars [] m with
+  | (.error e, m1) => (.error e, m1)
+  | (.ok lm, m1) =>
+    match loadAll f.succ lm (f.vars.length + f.succ.length + 2) f.succ {} m1 with
+    | (.error e, m2) => (.error e, m2)
+    | (.ok umap, m2) => (mapRoots umap f.roots, m2)
+
+theorem loadPickle_eq (f : PickleFile) (levels : Bool) (m : Mgr) :
+    loadPickle f levels m =
+      if (levels && !levelsPermutation f.vars) = true then (.error .value, m)
+      else if (levels && !levelsCompatible m.tbl f.vars) = true then (.error .value, m)
+      else loadPickleBody f levels m := rfl
+
+theorem loadPickle_of_compat (f : PickleFile) (levels : Bool) (m : Mgr)
+    (h : levels = true → levelsPermutation f.vars = true ∧ levelsCompatible m.tbl f.vars = true) :
+    loadPickle f levels m = loadPickleBody f levels m := by
+  rw [loadPickle_eq]
+  cases levels with
+  | false => simp
+  | true => simp [(h rfl).1, (h rfl).2]
+
+theorem loadPickle_refused (f : PickleFile) (m : Mgr)
+    (h : levelsPermutation f.vars = false ∨ levelsCompatible m.tbl f.vars = false) :
+    loadPickle f true m = (.error .value, m) := by
+  rw [loadPickle_eq]
+  rcases h with h | h
+  · simp [h]
+  · by_cases hp : levelsPermutation f.vars = true <;> simp [hp, h]
+
 /-- the second half of `load`: with the variables declared, the nodes are rebuilt and the
 roots denote (over the target's levels) what the file says -/
 theorem loadPickle_core {Q : Mgr → Prop} (hQ : LoadKeeps Q) (f : PickleFile) (levels : Bool) (lm : List (Nat × Nat))
     (m m1 : Mgr) (hv : loadVars levels f.vars.length f.vars [] m = (.ok lm, m1))
     (hI : Inv m1) (hq : Q m1) (hc : m1.ctx = false) (hs : SuccWF f.succ f.vars.length)
-    (hl : LMOK f.succ lm m1.nvars) (hr : RootsResolvable f) :
+    (hl : LMOK f.succ lm m1.nvars) (hr : RootsResolvable f)
+    (hcomp : levels = true → levelsPermutation f.vars = true ∧ levelsCompatible m.tbl f.vars = true) :
     ∃ roots' m', loadPickle f levels m = (.ok roots', m') ∧ Inv m' ∧ Frame m1 m' ∧
       Ext m1.tbl m'.tbl ∧
       RootsRel (fun u r => m'.tbl.Mem r ∧
         ∀ a, den m'.tbl r a = evalL f.succ lm (f.vars.length + 1) u a) f.roots roots' ∧ Q m' := by
-  unfold loadPickle
+  rw [loadPickle_of_compat f levels m hcomp]
+  unfold loadPickleBody
   rw [hv]
   dsimp only
   obtain ⟨umap, m2, e2, I2, F2, X2, U2, _, A2, Q2⟩ :=
@@ -815,6 +849,86 @@ that denotes — as a function of variable NAMES — what the file says -/
 def LoadedFrom (f : PickleFile) (t : Tbl) (roots' : Roots) : Prop :=
   RootsRel (fun u r => t.Mem r ∧ ∀ α, denBy t r α = evalPickle f u α) f.roots roots'
 
+theorem levelsCompatible_iff (t : Tbl) (vs : List (String × Nat)) :
+    levelsCompatible t vs = true ↔ ∀ var i, (var, i) ∈ vs →
+      (∀ j, t.vars[var]? = some j → j = i) ∧
+      (t.vars[var]? = none → ∀ v', t.l2v[i]? = some v' → v' = var) := by
+  unfold levelsCompatible
+  rw [List.all_eq_true]
+  constructor
+  · intro h var i hm
+    have := h (var, i) hm
+    dsimp only at this
+    constructor
+    · intro j hj; rw [hj] at this; simpa using this
+    · intro hn v' hv'; rw [hn] at this; dsimp only at this; rw [hv'] at this; simpa using this
+  · intro h x hx
+    obtain ⟨var, i⟩ := x
+    obtain ⟨h1, h2⟩ := h var i hx
+    dsimp only
+    cases hv : t.vars[var]? with
+    | some j => simp [h1 j hv]
+    | none =>
+      dsimp only
+      cases hl : t.l2v[i]? with
+      | none => rfl
+      | some v' => simp [h2 hv v' hl]
+
+/-- a successful `levels=True` declaration loop means the pre-check had passed -/
+theorem loadVars_true_compat (n : Nat) :
+    ∀ (vs : List (String × Nat)) (lm : List (Nat × Nat)) (m : Mgr) (lm' : List (Nat × Nat)) (m' : Mgr),
+      loadVars true n vs lm m = (.ok lm', m') → DmpVarsBij m.tbl → levelsCompatible m.tbl vs = true := by
+  intro vs
+  induction vs with
+  | nil => intro _ _ _ _ _ _; rfl
+  | cons x rest ih =>
+    intro lm m lm' m' h hb
+    obtain ⟨var, i⟩ := x
+    rw [loadVars] at h
+    dsimp only at h
+    by_cases hin : i < n
+    · simp only [hin, not_true_eq_false, if_false, if_true] at h
+      cases hav : addVar var (some (i : Int)) m with
+      | mk res m1 =>
+        rw [hav] at h
+        cases res with
+        | error e => simp at h
+        | ok j =>
+          dsimp only at h
+          obtain ⟨B1, V1, M1, _, _, L1⟩ := addVar_facts hav hb
+          have hji : j = i := L1 i rfl
+          subst hji
+          have ih' := (levelsCompatible_iff _ _).mp (ih _ m1 lm' m' h B1)
+          rw [levelsCompatible_iff]
+          intro v l hm
+          rcases List.mem_cons.mp hm with heq | hm'
+          · simp only [Prod.mk.injEq] at heq
+            obtain ⟨rfl, rfl⟩ := heq
+            constructor
+            · intro j' hj'
+              have := M1 v j' hj'
+              rw [V1] at this; cases this; rfl
+            · intro hn v' hv'
+              rcases dmp_addVar_cases hav with ⟨h1, _, _⟩ | ⟨_, h2, _, _⟩
+              · rw [hn] at h1; cases h1
+              · rw [h2] at hv'; cases hv'
+          · obtain ⟨a1, a2⟩ := ih' v l hm'
+            constructor
+            · intro j' hj'; exact a1 j' (M1 v j' hj')
+            · intro hn v' hv'
+              -- `l2v` only grows
+              have hl1 : m1.tbl.l2v[l]? = some v' := by
+                rw [← B1]
+                exact M1 v' l ((hb v' l).mpr hv')
+              cases hv1 : m1.tbl.vars[v]? with
+              | none => exact a2 hv1 v' hl1
+              | some j' =>
+                have := a1 j' hv1
+                subst this
+                have := (B1 v j').mp hv1
+                rw [hl1] at this; cases this; rfl
+    · simp [hin] at h
+
 /-- `BDD.load` on a well-formed file content: if the loader accepts the variables
 (`_load_pickle`'s first loop succeeds) and leaves no level gap, the load succeeds, the
 manager invariant is kept, old nodes are untouched, and the result is `LoadedFrom` the file
@@ -825,7 +939,8 @@ theorem pickle_loadQ {Q : Mgr → Prop} (hQ : LoadKeeps Q) (f : PickleFile) (lev
     (hwf : PickleWF f) (hr : RootsResolvable f)
     (lm : List (Nat × Nat)) (m1 : Mgr)
     (hv : loadVars levels f.vars.length f.vars [] m = (.ok lm, m1))
-    (hg : Contig m1.tbl) :
+    (hg : Contig m1.tbl)
+    (hperm : levels = true → levelsPermutation f.vars = true) :
     ∃ roots' m', loadPickle f levels m = (.ok roots', m') ∧ Inv m' ∧ DmpVarsBij m'.tbl ∧
       Contig m'.tbl ∧ m'.ctx = false ∧ (∀ u n, m.tbl.node? u = some n → m'.tbl.node? u = some n) ∧
       LoadedFrom f m'.tbl roots' ∧ Q m' := by
@@ -844,6 +959,7 @@ theorem pickle_loadQ {Q : Mgr → Prop} (hQ : LoadKeeps Q) (f : PickleFile) (lev
     · exact hg v j hv'
   obtain ⟨roots', m', e1, I2, F2, X2, RR, Q2⟩ :=
     loadPickle_core hQ f levels lm m m1 hv I1 Q1 (C1.trans hc) hwf.succ hl hr
+      (fun hlv => ⟨hperm hlv, by subst hlv; exact loadVars_true_compat _ _ _ _ _ _ hv hb⟩)
   have hn : NameOK f lm m'.tbl := by
     intro i j hij
     rcases R1 _ _ hij with h | ⟨v, hv1, hv2⟩
@@ -874,12 +990,13 @@ theorem pickle_load (f : PickleFile) (levels : Bool)
     (hwf : PickleWF f) (hr : RootsResolvable f)
     (lm : List (Nat × Nat)) (m1 : Mgr)
     (hv : loadVars levels f.vars.length f.vars [] m = (.ok lm, m1))
-    (hg : Contig m1.tbl) :
+    (hg : Contig m1.tbl)
+    (hperm : levels = true → levelsPermutation f.vars = true) :
     ∃ roots' m', loadPickle f levels m = (.ok roots', m') ∧ Inv m' ∧ DmpVarsBij m'.tbl ∧
       Contig m'.tbl ∧ m'.ctx = false ∧ (∀ u n, m.tbl.node? u = some n → m'.tbl.node? u = some n) ∧
       LoadedFrom f m'.tbl roots' := by
   obtain ⟨r, m', a, b, c, d, e, g, h, _⟩ :=
-    pickle_loadQ LoadKeeps.trivial f levels m hI True.intro hb hc hwf hr lm m1 hv hg
+    pickle_loadQ LoadKeeps.trivial f levels m hI True.intro hb hc hwf hr lm m1 hv hg hperm
   exact ⟨r, m', a, b, c, d, e, g, h⟩
 
 /-- exact reference counts are kept by the three mutations of `BDD.load` -/
@@ -907,11 +1024,12 @@ theorem pickle_load_counts (ext : Nat → Nat) (f : PickleFile) (levels : Bool)
     (hwf : PickleWF f) (hr : RootsResolvable f)
     (lm : List (Nat × Nat)) (m1 : Mgr)
     (hv : loadVars levels f.vars.length f.vars [] m = (.ok lm, m1))
-    (hg : Contig m1.tbl) :
+    (hg : Contig m1.tbl)
+    (hperm : levels = true → levelsPermutation f.vars = true) :
     ∃ roots' m', loadPickle f levels m = (.ok roots', m') ∧ Inv m' ∧ RefExact m' ext ∧
       LoadedFrom f m'.tbl roots' := by
   obtain ⟨r, m', a, b, _, _, _, _, h, q⟩ :=
-    pickle_loadQ (LoadKeeps.refExact ext) f levels m hI hx hb hc hwf hr lm m1 hv hg
+    pickle_loadQ (LoadKeeps.refExact ext) f levels m hI hx hb hc hwf hr lm m1 hv hg hperm
   exact ⟨r, m', a, b, q, h⟩
 
 /-- C12 for `BDD.load` at FULL strength: every well-formed pickle content whose variables
@@ -922,13 +1040,14 @@ order of the receiving manager, on constant roots, or on `roots` being present. 
 def pickle_load_statement : Prop :=
   ∀ (f : PickleFile) (levels : Bool) (tgt : Mgr), PickleWF f → RootsResolvable f →
     Inv tgt → DmpVarsBij tgt.tbl → tgt.ctx = false →
+    (levels = true → levelsPermutation f.vars = true) →
     ∀ lm m1, loadVars levels f.vars.length f.vars [] tgt = (.ok lm, m1) → Contig m1.tbl →
     ∃ roots' m', loadPickle f levels tgt = (.ok roots', m') ∧ Inv m' ∧ LoadedFrom f m'.tbl roots'
 
 /-- the repaired code satisfies the full statement -/
 theorem pickle_load_statement_holds : pickle_load_statement := by
-  intro f levels tgt hwf hr hI hb hc lm m1 hv hg
-  obtain ⟨r, m', e, I, _, _, _, _, L⟩ := pickle_load f levels tgt hI hb hc hwf hr lm m1 hv hg
+  intro f levels tgt hwf hr hI hb hc hperm lm m1 hv hg
+  obtain ⟨r, m', e, I, _, _, _, _, L⟩ := pickle_load f levels tgt hI hb hc hwf hr lm m1 hv hg hperm
   exact ⟨r, m', e, I, L⟩
 
 /-! #### `levels=False`: the loader accepts every variable, whatever the order of the manager -/
@@ -1438,6 +1557,59 @@ theorem loadedAs_of_loadedFrom {src : Mgr} (hIs : Inv src) (hvs : DmpVarsOK src.
   intro u hu r ⟨h1, h2⟩
   exact ⟨h1, fun α => by rw [h2 α, dumpPickle_eval hIs hvs hd α u hu]⟩
 
+theorem toList_pairwise (t : Tbl) (hb : DmpVarsBij t) :
+    t.vars.toList.Pairwise (fun a b => a.1 ≠ b.1 ∧ a.2 ≠ b.2) := by
+  apply List.Pairwise.imp_of_mem _ (TreeMap.distinct_keys_toList (t := t.vars))
+  intro a b ha hb' hne
+  have h1 : a.1 ≠ b.1 := fun h => hne (by rw [h]; exact compare_self)
+  refine ⟨h1, ?_⟩
+  intro h2
+  obtain ⟨a1, a2⟩ := a
+  obtain ⟨b1, b2⟩ := b
+  rw [TreeMap.mem_toList_iff_getElem?_eq_some] at ha hb'
+  simp at h2
+  subst h2
+  have x := (hb a1 a2).mp ha
+  have y := (hb b1 a2).mp hb'
+  rw [x] at y
+  cases y
+  exact h1 rfl
+
+/-- `sorted(levels) == list(range(n))` says: the levels are a permutation of `0..n-1` -/
+theorem levelsPermutation_iff (vs : List (String × Nat)) :
+    levelsPermutation vs = true ↔ (vs.map (·.2)).Perm (List.range vs.length) := by
+  unfold levelsPermutation
+  rw [beq_iff_eq]
+  constructor
+  · intro h; rw [← h]; exact (sortNat_perm _).symm
+  · intro h
+    have hn : (vs.map (·.2)).Nodup := h.nodup_iff.mpr List.nodup_range
+    apply List.Perm.eq_of_pairwise (le := fun a b => a < b) _ (sortNat_strict hn) List.pairwise_lt_range
+      ((sortNat_perm _).trans h)
+    intro a b _ _ h1 h2; omega
+
+/-- the pairs a manager with consistent, gap-free order tables writes -/
+theorem levelsPermutation_toList (t : Tbl) (hv : DmpVarsOK t) : levelsPermutation t.vars.toList = true := by
+  rw [levelsPermutation_iff]
+  have hp := toList_pairwise t hv.bij
+  have hn : (t.vars.toList.map (·.2)).Nodup := by
+    rw [List.Nodup, List.pairwise_map]; exact hp.imp (fun h => h.2)
+  apply (List.perm_ext_iff_of_nodup hn List.nodup_range).mpr
+  intro l
+  rw [List.mem_range, TreeMap.length_toList]
+  constructor
+  · intro h
+    obtain ⟨⟨v, l'⟩, hm, rfl⟩ := List.mem_map.mp h
+    rw [TreeMap.mem_toList_iff_getElem?_eq_some] at hm
+    exact hv.contig v l' hm
+  · intro h
+    obtain ⟨v, hvl⟩ := Option.isSome_iff_exists.mp (hv.named l h)
+    exact List.mem_map.mpr ⟨(v, l), TreeMap.mem_toList_iff_getElem?_eq_some.mpr ((hv.bij v l).mpr hvl), rfl⟩
+
+theorem dumpPickle_levelsPerm {m : Mgr} (hv : DmpVarsOK m.tbl) {roots : Roots} {f : PickleFile}
+    (h : dumpPickle m roots = .ok f) : levelsPermutation f.vars = true := by
+  rw [(dumpPickle_parts h).1]; exact levelsPermutation_toList m.tbl hv
+
 /-- C12, pickle, general form: dump `roots` (list, dict or `None`; constants allowed) of
 `src`, load the content into `tgt` with either value of `levels`, whatever the variable
 order of `tgt`.  The only hypotheses beyond the invariants: the loader accepts the
@@ -1454,7 +1626,7 @@ theorem pickle_roundtrip
       LoadedAs src.tbl roots m'.tbl roots' := by
   obtain ⟨roots', m', e, I, B, _, _, N, R⟩ :=
     pickle_load f levels tgt hI hb hc (dumpPickle_wf hIs hvs hd) (dumpPickle_resolvable hIs hd)
-      lm m1 hv hg
+      lm m1 hv hg (fun _ => dumpPickle_levelsPerm hvs hd)
   exact ⟨roots', m', e, I, B, N, loadedAs_of_loadedFrom hIs hvs hd R⟩
 
 /-- C12, pickle, `levels=False`: into ANY manager with a consistent order — other variable
@@ -1470,13 +1642,14 @@ theorem pickle_roundtrip_any_order
   have hwf := dumpPickle_wf hIs hvs hd
   obtain ⟨lm, m1, hv, O1⟩ := loadVars_false_total f.vars.length f.vars [] tgt hI hO hwf.bound
   obtain ⟨roots', m', e, I, B, G, _, N, R⟩ :=
-    pickle_load f false tgt hI hO.bij hc hwf (dumpPickle_resolvable hIs hd) lm m1 hv O1.contig
+    pickle_load f false tgt hI hO.bij hc hwf (dumpPickle_resolvable hIs hd) lm m1 hv O1.contig (fun h => by cases h)
   obtain ⟨_, _, C1, _⟩ := loadVars_spec Inv false f.vars.length f.vars
     (fun m var i j m' _ hJ h => addVar_inv hJ h) [] tgt lm m1 hv hI hO.bij
   refine ⟨roots', m', e, I, ?_, N, loadedAs_of_loadedFrom hIs hvs hd R⟩
   -- the order tables of `m'` are those of `m1` (only nodes were added)
   have hfr : m'.tbl.vars = m1.tbl.vars ∧ m'.tbl.l2v = m1.tbl.l2v ∧ m'.tbl.nvars = m1.tbl.nvars := by
-    unfold loadPickle at e
+    rw [loadPickle_of_compat f false tgt (fun h => by cases h)] at e
+    unfold loadPickleBody at e
     rw [hv] at e
     dsimp only at e
     cases hla : loadAll f.succ lm (f.vars.length + f.succ.length + 2) f.succ {} m1 with
@@ -1698,24 +1871,6 @@ theorem addVars_spec : ∀ (vs : List (String × Nat)) (m0 : Mgr),
         have : ¬ (l' = l) := fun h => hl h.symm
         simp [c1, this]
 
-
-theorem toList_pairwise (t : Tbl) (hb : DmpVarsBij t) :
-    t.vars.toList.Pairwise (fun a b => a.1 ≠ b.1 ∧ a.2 ≠ b.2) := by
-  apply List.Pairwise.imp_of_mem _ (TreeMap.distinct_keys_toList (t := t.vars))
-  intro a b ha hb' hne
-  have h1 : a.1 ≠ b.1 := fun h => hne (by rw [h]; exact compare_self)
-  refine ⟨h1, ?_⟩
-  intro h2
-  obtain ⟨a1, a2⟩ := a
-  obtain ⟨b1, b2⟩ := b
-  rw [TreeMap.mem_toList_iff_getElem?_eq_some] at ha hb'
-  simp at h2
-  subst h2
-  have x := (hb a1 a2).mp ha
-  have y := (hb b1 a2).mp hb'
-  rw [x] at y
-  cases y
-  exact h1 rfl
 
 theorem validOrdering_toList (t : Tbl) (hv : DmpVarsOK t) : validOrdering t.vars.toList = true := by
   unfold validOrdering
@@ -2251,11 +2406,16 @@ theorem loadJson_loadOrder_enables_reordering (f : JsonFile) (m m' : Mgr) (r : R
   unfold loadJson at h
   simp only [if_true] at h
   obtain ⟨_, m1, _, h⟩ := M.dmp_bind_ok h
-  obtain ⟨_, m2, _, h⟩ := M.dmp_bind_ok h
-  obtain ⟨_, m3, _, h⟩ := M.dmp_bind_ok h
-  obtain ⟨cache, m4, _, h⟩ := M.dmp_bind_ok h
-  obtain ⟨ks, m5, _, h⟩ := M.dmp_bind_ok h
-  obtain ⟨us, m6, _, h⟩ := M.dmp_bind_ok h
+  generalize jsonTry f true m1 = tr at h
+  obtain ⟨rt, cache, m6⟩ := tr
+  cases rt with
+  | error e =>
+    unfold jsonFinish at h
+    dsimp only at h
+    split at h <;> simp at h
+  | ok us =>
+  unfold jsonFinish at h
+  simp only [if_true] at h
   generalize (releaseLoop true cache cache none m6) = rl at h
   obtain ⟨rr, last, m7⟩ := rl
   dsimp only at h
